@@ -12,4 +12,22 @@ RULES = [
 
 
 def generate(repo, T):
-    return {"Theta.lean": T.gen_consts(repo, RULES)}
+    import re
+    txt = T.gen_consts(repo, RULES)
+    # shape of starting_theta_from_p: plain truncation (pinned code; theta 0 for p < 2^-63) or floored at 1 (repaired)
+    src = T.strip_comments(T.read(repo, "theta/include/theta_helpers.hpp"))
+    m = re.search(r"starting_theta_from_p\(float p\)\s*\{\s*if \(p < 1\) return ([^;]+);", src)
+    if not m:
+        T.fail("starting_theta_from_p body not recognised")
+        floor = 0
+    else:
+        body = "".join(m.group(1).split())
+        if body == "static_cast<uint64_t>(static_cast<double>(theta_constants::MAX_THETA)*p)":
+            floor = 0
+        elif body == "std::max<uint64_t>(1,static_cast<uint64_t>(static_cast<double>(theta_constants::MAX_THETA)*p))":
+            floor = 1
+        else:
+            T.fail("starting_theta_from_p has an unknown shape: %r" % m.group(1))
+            floor = 0
+    txt = txt.replace("end DSGen", "/-- smallest starting theta `starting_theta_from_p` can return for p < 1 -/\ndef theta_STARTING_THETA_FLOOR : Nat := %d\n\nend DSGen" % floor)
+    return {"Theta.lean": txt}
